@@ -23,10 +23,11 @@ def register(prop, TB_COMMON):
     ]
     tb_tot = tb_tot + [
         "emitted decoders (second stream, C09gen): adversarial variants of valid binary encodings of every generated type through the compiled emitted code and the "
-        "template model (TGen/Decode.lean); nesting bombs of a recursive type decoded on a 2 MiB thread; the emitted half has no theorem of its own beyond C08/C02's "
-        "correspondence on well-formed input — on malformed input the tie is T1 only",
+        "template model (TGen/Decode.lean); nesting bombs of a recursive type decoded on a 2 MiB thread; the emitted half is proved in Props/C09Gen.lean "
+        "(gen_total_*, gen_no_hang_*, gen_value_or_error_*: every closed document, every byte string, every reader state) about the template model, which the "
+        "C09gen stream compares with the compiled emitted code on adversarial inputs; the known findings D10 D12 D29 D34 D37 are where the real emitted code leaves the model",
     ]
-    prop("C09", lean_props=["C09", "Tables"], trusted_base=tb_tot, oracle_tags=["C09"], bins=["rt", "gentool"],
+    prop("C09", lean_props=["C09", "C09Gen", "Tables"], trusted_base=tb_tot, oracle_tags=["C09"], bins=["rt", "gentool"],
          streams=[{"name": "C09"}, {"name": "C09gen", "bin": "genrun", "pygen": "requests_C09gen"}],
          explanation="sk: raw bytes (every truncation, bit flips, every type / length / count / field-id position overwritten with boundary values, random strings, "
                      "nesting bombs) through read and skip of every safe reader; pfx: every strict prefix of a valid encoding rejected by read and by skip; "
